@@ -13,6 +13,9 @@ CHECKS = {
  "C02": dict(engine="simrt+simnet+modelredis", cat="exploration", ref="DESIGN.md 5/C02",
    text="Seeded search over (entry, configuration, target flavour, pre-existing key) with the real RestoreRdbEntry talking redigo/RESP over a simulated connection to a Redis model; the target keyspace is compared with the reference decoding of the source bytes, TTL to the millisecond of simulated time.",
    tech="deterministic simulation: real restore code against a simulated network and Redis reference model, reference decoder as oracle"),
+ "C10": dict(engine="simrt+refcodec", cat="exploration", ref="DESIGN.md 5/C10",
+   text="Seeded search over RESP value trees, inline commands and keep-alives: tool encoder vs reference printer, tool decoder behind a fragmenting stream with per-element value/leftover/offset checks, and truncation/one-byte corruption compared with a reference parser.",
+   tech="deterministic simulation of the input stream (fragmentation, truncation, corruption) + reference RESP printer/parser as oracle"),
  "C18": dict(engine="simrt", cat="exploration", ref="DESIGN.md 5/C18",
    text="Seeded search over writer/reader/closer scripts and lock-granularity interleavings of the real backlog ring against an absolute-offset log model (interval semantics for in-flight writes), with lost-wake-up analysis at quiescence.",
    tech="deterministic simulation: tape-driven baton scheduler over instrumented locks/conds + absolute-offset log model"),
